@@ -365,7 +365,11 @@ class ndarray:
     __slots__ = ("buf", "off", "shape", "strides", "dtype")
     __array_priority__ = 100
 
-    def __init__(self, buf, off, shape, strides, dtype):
+    def __init__(self, buf, off=None, shape=None, strides=None, dtype=None):
+        if off is None:
+            # np.ndarray(shape): uninitialised memory, like np.empty
+            e = empty(buf, dtype if dtype is not None else float64)
+            buf, off, shape, strides, dtype = e.buf, e.off, e.shape, e.strides, e.dtype
         self.buf = buf
         self.off = off
         self.shape = tuple(shape)
@@ -924,6 +928,8 @@ def _amod(a, b):
 
 
 def _apow(a, b):
+    if isinstance(a, NaN) or isinstance(b, NaN):
+        return NaN("pow of NaN")
     if isinstance(b, bool):
         b = int(b)
     if isinstance(b, Fraction) and b.denominator == 1:
@@ -1317,16 +1323,30 @@ def min(a, axis=None):
 amax, amin = max, min
 
 
+def _nanprop(f):
+    """np.maximum / np.minimum propagate NaN"""
+    def g(a, b):
+        if isinstance(a, NaN) or (isinstance(a, float) and a != a):
+            return a
+        if isinstance(b, NaN) or (isinstance(b, float) and b != b):
+            return b
+        return f(a, b)
+    return g
+
+
+_amax, _amin = _nanprop(smax), _nanprop(smin)
+
+
 def maximum(a, b):
     if isinstance(a, ndarray) or isinstance(b, ndarray):
-        return _A(a)._binop(b, smax) if isinstance(a, ndarray) else _A(b)._binop(a, smax)
-    return smax(a, b)
+        return _A(a)._binop(b, _amax) if isinstance(a, ndarray) else _A(b)._binop(a, _amax)
+    return _amax(a, b)
 
 
 def minimum(a, b):
     if isinstance(a, ndarray) or isinstance(b, ndarray):
-        return _A(a)._binop(b, smin) if isinstance(a, ndarray) else _A(b)._binop(a, smin)
-    return smin(a, b)
+        return _A(a)._binop(b, _amin) if isinstance(a, ndarray) else _A(b)._binop(a, _amin)
+    return _amin(a, b)
 
 
 def clip(a, lo, hi):
